@@ -128,7 +128,7 @@ def run(mod, tier, seed, replay=None):
                                           "what": "worker process died while executing the case (%s)" % (rep.get("signal") or rep.get("returncode")),
                                           "witness": {"signal": rep.get("signal"), "returncode": rep.get("returncode"),
                                                       "stderr_tail": (rep.get("stderr_tail") or "")[-3000:],
-                                                      "sanitizer_log": (rep.get("sanitizer_log") or "")[-5000:]}}))
+                                                      "sanitizer_log": (rep.get("sanitizer_log") or "")[:8000]}}))
         elif st == "timeout":
             n_timeout += 1
         elif st == "skipped":
